@@ -1415,8 +1415,8 @@ func (r *ChannelRouter) BuildRoute(amt fn.Option[lnwire.MilliSatoshi],
 		return nil, err
 	}
 
-	// Build and return the final route.
-	return newRoute(
+	// Build the final route.
+	rt, err := newRoute(
 		sourceNode, pathEdges, uint32(height),
 		finalHopParams{
 			amt:         receiverAmt,
@@ -1426,6 +1426,30 @@ func (r *ChannelRouter) BuildRoute(amt fn.Option[lnwire.MilliSatoshi],
 			paymentAddr: payAddr,
 		}, nil,
 	)
+	if err != nil {
+		return nil, err
+	}
+
+	// For the minimal amount search, the receiver amount of the forward
+	// pass is rounded in favor of the receiver. Building the route from it
+	// can therefore end up with amounts that are slightly above the ones
+	// that were checked in the two passes above, so we make sure that the
+	// amounts the route really carries are still within the channel limits.
+	if amt.IsNone() {
+		hopAmt := rt.TotalAmount
+		for i, edge := range pathEdges {
+			if !edge.amtInRange(hopAmt) {
+				log.Errorf("Amount %v not in range for hop "+
+					"index %v", hopAmt, i)
+
+				return nil, ErrNoChannel{position: i}
+			}
+
+			hopAmt = rt.Hops[i].AmtToForward
+		}
+	}
+
+	return rt, nil
 }
 
 // resumePayments fetches inflight payments and resumes their payment
